@@ -770,6 +770,8 @@ class Parser:
             if node is None:
                 node = xonsh_call(f"__xonsh__.{fn}", atom, **span)
             else:
+                if not isinstance(atom, ast.Name):  # 'a?.[1]?': only an attribute name can follow the dot
+                    self.raise_syntax_error_known_location("invalid syntax", atom)
                 attr_end = {"end_lineno": atom.end_lineno, "end_col_offset": atom.end_col_offset}
                 node = xonsh_call(
                     f"__xonsh__.{fn}",
